@@ -4,7 +4,6 @@ go 1.24.2
 
 replace github.com/zen-eth/shisui => /repo
 
-
 replace github.com/protolambda/zrnt v0.34.1 => github.com/optimism-java/zrnt v0.32.4-0.20250528142456-bc543d07ddb2
 
 require (
@@ -113,7 +112,6 @@ require (
 	github.com/xrash/smetrics v0.0.0-20240521201337-686a1a2994c1 // indirect
 	go.uber.org/multierr v1.11.0 // indirect
 	go.uber.org/zap v1.27.0 // indirect
-	golang.org/x/crypto v0.36.0 // indirect
 	golang.org/x/net v0.38.0 // indirect
 	golang.org/x/sys v0.33.0 // indirect
 	google.golang.org/protobuf v1.35.2 // indirect
@@ -124,5 +122,6 @@ replace github.com/ethereum/go-ethereum => github.com/optimism-java/shisui v1.14
 
 require (
 	github.com/zen-eth/shisui v0.0.0
+	golang.org/x/crypto v0.36.0
 	pgregory.net/rapid v1.3.0
 )
